@@ -390,8 +390,12 @@ namespace cds { namespace algo {
                 {
                     lock_guard l( m_Mutex );
                     f();
+
+                    // Wake up a pending thread while the combiner lock is still held:
+                    // wakeup() may walk the publication list (see wakeup_any()), and records
+                    // of exited threads are reclaimed by compact_list() under the same lock only
+                    m_waitStrategy.wakeup( *this );
                 }
-                m_waitStrategy.wakeup( *this );
                 m_Stat.onInvokeExclusive();
             }
 
@@ -537,7 +541,8 @@ namespace cds { namespace algo {
 
             /// Wakes up any waiting thread
             /**
-                This function is intended for invoking from a wait strategy
+                This function is intended for invoking from a wait strategy.
+                The caller must hold the combiner lock: the function walks the publication list
             */
             void wakeup_any()
             {
@@ -739,10 +744,12 @@ namespace cds { namespace algo {
                     if ( m_Mutex.try_lock()) {
                         if ( pRec->op( memory_model::memory_order_acquire ) == req_Response ) {
                             // Operation is done
-                            m_Mutex.unlock();
 
-                            // Wake up a pending threads
+                            // Wake up a pending threads. The combiner lock is still held:
+                            // wakeup() may walk the publication list (see wakeup_any()), and records
+                            // of exited threads are reclaimed by compact_list() under the same lock only
                             m_waitStrategy.wakeup( *this );
+                            m_Mutex.unlock();
                             m_Stat.onPassiveWaitWakeup();
 
                             break;
